@@ -80,6 +80,10 @@ fn cthash(a: &Args) {
     // instruction addresses (hex, as lackey prints them) to leave out of the observation: the driver passes the
     // instructions guarded by a KNOWN, recorded data-dependent branch so that everything else is still compared exactly
     let skip: std::collections::HashSet<String> = a.s("skip", "").split(',').filter(|s| !s.is_empty()).map(|s| s.to_string()).collect();
+    // address ranges lo-hi (hex) of whole functions left out of the observation, together with their loads and stores
+    let ranges: Vec<(u64, u64)> = a.s("skipranges", "").split(',').filter(|s| !s.is_empty()).map(|r| {
+        let (lo, hi) = r.split_once('-').expect("skipranges=lo-hi"); (u64::from_str_radix(lo, 16).unwrap(), u64::from_str_radix(hi, 16).unwrap()) }).collect();
+    let mut in_skipped = false;
     let mut first_i = String::new();
     let mut skipped = 0usize;
     for line in stdin.lock().lines() {
@@ -98,7 +102,12 @@ fn cthash(a: &Args) {
             let addr = line[1..].trim().split(',').next().unwrap_or("");
             if first_i.is_empty() { first_i = addr.to_string(); }
             if skip.contains(addr) { skipped += 1; continue; }
-        }
+            if !ranges.is_empty() {
+                let v = u64::from_str_radix(addr, 16).unwrap_or(0);
+                in_skipped = ranges.iter().any(|(lo, hi)| v >= *lo && v < *hi);
+                if in_skipped { skipped += 1; continue; }
+            }
+        } else if in_skipped { skipped += 1; continue; }
         h.update(b); h.update(b"\n");
         if dump == Some(blocks.len()) { dumped.push(line.clone()); }
         n += 1; inblock += 1;
